@@ -6,6 +6,7 @@ import TboxModel.Util
 import TboxModel.C19.Model
 import TboxModel.C19.Spec
 import TboxModel.C19.Long
+import TboxModel.C19.Alias
 open Tbox.Util Tbox.C19
 
 structure DSt where
@@ -477,6 +478,30 @@ def runOp (st : DSt) (ws00 : List String) : Option (DSt × List String) := do
         | _ => pure (st, ["P b64.dec2 ?"])
       | .oob w => pure (st, [s!"P b64.dec2 OOB {w}"])
       | _ => pure (st, ["P b64.dec2 ?"])
+  -- round 10: aliased buffers. Base64 decode with text and output in ONE memory (pre ++ text ++ post, output at offset dst ≤ |pre|)
+  | ["b64.decip", pre, t, post, d, c] => do
+      let pre ← bytesOfHex pre; let t ← bytesOfHex t; let post ← bytesOfHex post; let dst ← d.toNat?; let cap ← c.toNat?
+      let mem := pre ++ t ++ post
+      if mem.length ≥ 2 ^ 16 ∨ dst + cap > mem.length ∨ dst > pre.length ∨ toString dst ≠ d ∨ toString cap ≠ c then none else
+      -- an output pointer BEHIND the start of the text is outside the contract (C19_b64_decode_in_place_overlap_counterexample): bad-op on both sides
+      let kind := if dst = pre.length then "exact" else "before"
+      match B64.decodeIp mem pre.length t.length dst cap with
+      | .ok (r, m) =>
+          pure (st, [s!"B b64-ip-{kind} " ++ b64Tag t cap, s!"P b64.decip ret={r} out={hexOfBytes ((m.drop dst).take r)}",
+                     s!"M b64.decip mem={hexOfBytes m}"])
+      | .oob w => pure (st, [s!"P b64.decip OOB {w}"])
+      | _ => pure (st, ["P b64.decip ?"])
+  -- serializer self-append: ser.append(own storage + off, k); r = 1: the caller reserved pos + k first, r = 0: capacity = size
+  | ["ser.self", off, k, r] => do
+      let s ← st.ser; let off' ← off.toNat?; let k' ← k.toNat?; let rsv ← bool01? r
+      if toString off' ≠ off ∨ toString k' ≠ k ∨ k' ≥ 2 ^ 16 then none else
+      let vcap := if rsv then max s.mem.length (s.pos + k') else s.mem.length
+      match ← s.appendSelf vcap off' k' with
+      | .oob "read source freed by resize" => pure (st, ["B ser-self-dangles", "M ser.self dangling=asan"])
+      | res =>
+        let (line, s') := showSer res
+        pure ({ st with ser := s'.orElse (fun _ => some s) },
+              [s!"B ser-self-{if s.raw then "raw" else if rsv then "reserved" else "fits"}{if k' = 0 then "-k0" else ""}", line])
   | ["ser.view", e] => do
       let s ← st.ser; let e ← endian? e
       pure ({ st with des := some (Ser.D.new (s.mem.take s.pos) e) }, ["B ser-view", "P des new"])
